@@ -50,7 +50,11 @@ func bucketWrites(regs []*reg64) []func(t *reg64) string {
 			}
 		}
 	}
-	ws = append(ws, func(t *reg64) string { t.B.RemoveRange(0, ^uint64(0)); t.M.RemoveRange(0, ^uint64(0)); return "RemoveRange(all)" })
+	ws = append(ws, func(t *reg64) string {
+		t.B.RemoveRange(0, ^uint64(0))
+		t.M.RemoveRange(0, ^uint64(0))
+		return "RemoveRange(all)"
+	})
 	ws = append(ws, func(t *reg64) string { t.B.Flip(5, 1<<32+5); t.M.FlipRange(5, 1<<32+5); return "Flip(5,2^32+5)" })
 	return ws
 }
